@@ -359,7 +359,11 @@ class OwnedRNG:
     self.calls += 1
     k = self.chooser.pick("rng%d" % idx, NANS)
     self.picks.append(k)
-    arr = self.answer_fn(idx, k, tuple(int(s) for s in np.asarray(shape).reshape(-1)), minval, maxval)
+    try:
+      shp = tuple(int(s) for s in np.asarray(shape).reshape(-1))
+    except Exception:  # pylint: disable=broad-except
+      shp = None       # symbolic shape: the call comes from inside a traced function; the answer keeps the input's shape
+    arr = self.answer_fn(idx, k, shp, minval, maxval)
     return self.tf.constant(arr, dtype=self.tf.float32)
 
 
@@ -400,11 +404,11 @@ def run_rounding(c, tf, viol_add):
       if fam == "po2":
         v, _, _ = mdl.answers(x, min(idx, mdl.ncalls - 1), k)
         used[idx] = v
-        return v.reshape(shape)
+        return v.reshape(shape) if shape is not None else v
       ths = mdl.thresholds(x)
       u = answers_unit(ths[min(idx, len(ths) - 1)], k)
       used[idx] = u
-      return u.reshape(shape)
+      return u.reshape(shape) if shape is not None else u
     q = mdl.make(stochastic=True)
     y, rng = execute(tf, q, x, phase, ch, answer)
     return phase, y, used, rng.calls
@@ -489,6 +493,34 @@ def run_rounding(c, tf, viol_add):
           float(x[i]), float(y[i]), float(want[i]), ks), "")
     saw_up |= bool(((y64 == hi_v) & (hi_v > lo_v)).any())
     saw_dn |= bool(((y64 == lo_v) & (hi_v > lo_v)).any())
+  # --- histories on ONE quantizer object: the learning phase is read at every call ---------------------------------
+  def hist_answer(kk):
+    def answer(idx, k, shape, minval, maxval):
+      if fam == "po2":
+        v, _, _ = mdl.answers(x, min(idx, mdl.ncalls - 1), kk)
+      else:
+        ths = mdl.thresholds(x)
+        v = answers_unit(ths[min(idx, len(ths) - 1)], kk)
+      return v.reshape(shape) if shape is not None else v
+    return answer
+  for order in ((1, 0), (0, 1), (1, 0, 1)):
+    q = mdl.make(stochastic=True)
+    for step, phase in enumerate(order):
+      ys = []
+      for kk in (0, 1):
+        y, _ = execute(tf, q, x, phase, choices.Chooser([]), hist_answer(kk))
+        ys.append(y)
+        execs += 1
+        evals += x.size
+        st.append("%s|hist%r|%d|%d" % (sorted((k, v) for k, v in c.items() if not k.startswith("_")), order, step, kk))
+        digests.append(common.digest(y))
+        if phase == 0 and not np.array_equal(y, y_twin):
+          i = int(np.flatnonzero(y != y_twin)[0])
+          viol_add("history:inference-equals-nearest", "phases %r on one object, call %d (inference): x=%r -> %r, round-to-nearest "
+                   "gives %r" % (list(order), step, float(x[i]), float(y[i]), float(y_twin[i])), "")
+      if phase == 1 and np.array_equal(ys[0], ys[1]) and saw_up and saw_dn:
+        viol_add("history:training-ignores-draw", "phases %r on one object, call %d (training): draws below and above every "
+                 "threshold give identical outputs - rounding is deterministic" % (list(order), step), "")
   return dict(execs=execs, evals=evals, states=st, nontrivial=int(saw_up and saw_dn), digests=digests,
               maxcalls=maxcalls, n=int(x.size), exhaustive=True)
 
